@@ -41,6 +41,11 @@ CLAIMED = {
             "Operation histories over SmallMap (plain and pre-hashed API), SmallSet, OrderedMap/Set, SortedMap/Set/Vec, UnorderedMap/Set and Vec2 are executed against a Vec<(K,V)> model; keys carry simulator-chosen adversarial hashes so collisions are the norm; a panic is injected into Hash/Eq/Ord/retain/sort_by/or_insert_with/and_modify callbacks inside about one operation in nine and the container must stay duplicate-free and internally consistent (narrow relaxation, then re-synchronised); after every step every lookup by key, index and position for every key of the universe is compared. All histories up to length 4 (quick) / 5 (thorough) over an 18-operation alphabet on base maps of 15-18 entries are enumerated completely; random histories up to 220 operations cross the 16-entry threshold repeatedly; tracked values detect double drops and leaks.",
             "Exhaustive only inside the stated short-history sub-space; the rest is seeded sampling. The relaxed post-panic model accepts loss of entries (the library does not promise more).",
             "DESIGN.md §6 C11"),
+    "C20": ("exploration",
+            "deterministic simulation: seeded cooperative scheduler (random / PCT / few-preemption policies) over real OS threads parked and released one at a time at hooked shared-state sites, poisoned chunks, sequential-schedule reference",
+            "2-6 real OS threads run generated workloads over 1-3 shared frozen modules (load + call + hash + compare + repr, shared record/enum types, build-freeze-drop of own modules, frozen modules sent to and dropped by another thread); a thread runs only while it holds the baton, which is handed over at hooked scheduling points in /repo (chunk ref-count inc/dec/dealloc, per-thread chunk cache, frozen-heap into_ref/drop/add_reference, lazy string hash, atomic cells of frozen defs, post_freeze, type ids, every evaluator tick) and at send/recv; the schedule PRNG decides who runs, so each run replays from its seed. Every thread's transcript must equal the one it has under the run-to-completion schedule; no panic, chunk life-cycle assertion, deadlock or crash (freed chunks/arenas are poisoned).",
+            "Interleavings are explored at the granularity of the hooked sites only: a race on a location without a scheduling point is invisible unless it changes a result at this granularity; there is no happens-before race detector (Miri cannot run the crate, see DESIGN.md §2). First-use races on process-wide lazies are explored only as 'who gets there first' (initialisers run without pre-emption).",
+            "DESIGN.md §6 C20"),
 }
 
 NOT_APPLICABLE = {
@@ -60,7 +65,6 @@ PENDING = {
     "C14": "claimed in DESIGN.md but its check is not built yet in this commit; not claimed until it is",
     "C18": "claimed in DESIGN.md but its check is not built yet in this commit; not claimed until it is",
     "C19": "claimed in DESIGN.md but its check is not built yet in this commit; not claimed until it is",
-    "C20": "claimed in DESIGN.md but its check is not built yet in this commit; not claimed until it is",
 }
 
 def main():
